@@ -266,6 +266,10 @@ func (k Keeper) BaseCoinToIBCCoin(ctx context.Context, coin sdk.Coin, holder sdk
 	if err != nil {
 		return sdk.Coin{}, err
 	}
+	if ibcDenom == coin.Denom {
+		// the origin token travels over IBC as it is: nothing to exchange for a voucher
+		return coin, nil
+	}
 	ibcCoin := sdk.NewCoin(ibcDenom, coin.Amount)
 	if err = k.bankKeeper.SendCoinsFromAccountToModule(ctx, holder, ibctransfertypes.ModuleName, sdk.NewCoins(coin)); err != nil {
 		return sdk.Coin{}, err
